@@ -230,7 +230,8 @@ func ensureBuild() (string, error) {
 	}
 	sort.Slice(ds, func(i, j int) bool { return ds[i].t.After(ds[j].t) })
 	for i, d := range ds {
-		if i >= 2 && d.name != key {
+		// keep the most recent builds; never remove one that may still be in use by a concurrent check
+		if i >= 3 && d.name != key && time.Since(d.t) > 20*time.Minute {
 			os.RemoveAll(filepath.Join(bdir, d.name))
 		}
 	}
@@ -400,7 +401,7 @@ func (k *knownFinding) matches(v *violation) bool {
 func check(prop, tier string) int {
 	start := time.Now()
 	seed, _ := strconv.ParseInt(os.Getenv("VERIF_SEED"), 10, 64)
-	evPath := filepath.Join(verifDir, "evidence", prop+".json")
+	evPath := filepath.Join(envOr("VERIF_EVIDENCE_DIR", filepath.Join(verifDir, "evidence")), prop+".json")
 	os.MkdirAll(filepath.Dir(evPath), 0o755)
 	writeEvidence := func(cov map[string]interface{}, assumptions []string, nviol int) {
 		ev := map[string]interface{}{
@@ -590,6 +591,25 @@ func check(prop, tier string) int {
 		}
 		viols = append(viols, r.Violations...)
 	}
+	type jw struct {
+		name string
+		w    float64
+	}
+	var jws []jw
+	for _, r := range results {
+		if r != nil {
+			jws = append(jws, jw{r.Job, r.WallS})
+		}
+	}
+	sort.Slice(jws, func(i, j int) bool { return jws[i].w > jws[j].w })
+	var slowest []string
+	var cpuS float64
+	for i, x := range jws {
+		cpuS += x.w
+		if i < 8 {
+			slowest = append(slowest, fmt.Sprintf("%s %.1fs", x.name, x.w))
+		}
+	}
 	// classify violations
 	known := loadKnown()
 	type group struct {
@@ -639,13 +659,14 @@ func check(prop, tier string) int {
 		sigs = append(sigs, s)
 	}
 	sort.Strings(sigs)
-	os.MkdirAll(filepath.Join(verifDir, "replays"), 0o755)
+	replayDir := envOr("VERIF_REPLAY_DIR", filepath.Join(verifDir, "replays"))
+	os.MkdirAll(replayDir, 0o755)
 	for _, s := range sigs {
 		g := unlisted[s]
 		b, _ := json.MarshalIndent(g.best, "", " ")
 		hh := sha256.Sum256(b)
 		name := fmt.Sprintf("%s-%s-%s.json", prop, sanitize(g.best.Family+"-"+g.best.Oracle), hex.EncodeToString(hh[:])[:8])
-		path := filepath.Join(verifDir, "replays", name)
+		path := filepath.Join(replayDir, name)
 		os.WriteFile(path, b, 0o644)
 		fmt.Printf("VIOLATION property=%s replay=%s\n", prop, path)
 		fmt.Printf("  oracle=%s scenario=%s deviations=%d (%d violating scenarios/inputs in this group)\n  %s\n", g.best.Oracle, g.best.Scenario, g.best.Devs, g.n, g.best.Msg)
@@ -660,6 +681,7 @@ func check(prop, tier string) int {
 		"bounds_completed": bounds, "caps_hit": caps, "jobs": len(jobs), "vacuous_jobs": vacuous,
 		"cache_on_off_agreement": cacheAgree, "notes": notes, "workers": nw,
 		"known_findings_matched": len(knownHit), "unlisted_violation_groups": len(unlisted),
+		"slowest_jobs": slowest, "job_cpu_s": cpuS,
 	}
 	if states == 0 {
 		cov["states"] = evals
